@@ -246,6 +246,7 @@ func parseType(remoteType IntrospectionQueryFullType) *ast.Definition {
 			definition.EnumValues = append(definition.EnumValues, &ast.EnumValueDefinition{
 				Name:        value.Name,
 				Description: value.Description,
+				Directives:  deprecatedDirective(value.IsDeprecated, value.DeprecationReason),
 			})
 		}
 	}
@@ -260,6 +261,7 @@ func parseType(remoteType IntrospectionQueryFullType) *ast.Definition {
 			Type:        parseTypeRef(&field.Type),
 			Description: field.Description,
 			Arguments:   parseArgList(field.Args),
+			Directives:  deprecatedDirective(field.IsDeprecated, field.DeprecationReason),
 		})
 	}
 
@@ -271,6 +273,22 @@ func parseType(remoteType IntrospectionQueryFullType) *ast.Definition {
 	definition.Fields = fields
 
 	return definition
+}
+
+// deprecatedDirective keeps the deprecation of a field or enum value of the remote schema
+func deprecatedDirective(isDeprecated bool, reason string) ast.DirectiveList {
+	if !isDeprecated {
+		return nil
+	}
+	directive := &ast.Directive{Name: "deprecated", Position: &ast.Position{}}
+	if reason != "" {
+		directive.Arguments = ast.ArgumentList{{
+			Name:     "reason",
+			Position: &ast.Position{},
+			Value:    &ast.Value{Raw: reason, Kind: ast.StringValue, Position: &ast.Position{}},
+		}}
+	}
+	return ast.DirectiveList{directive}
 }
 
 func parseInputField(field IntrospectionInputValue) *ast.FieldDefinition {
